@@ -995,6 +995,17 @@ def FANFLOW(K=0, horizon=2.25, ops=None):
     return spec(f'FANFLOW[K0]', devs, horizon, [], 0)          # tie orders only: three sources at one instant branch enough
 
 
+def FANTOGGLE2(K=0, horizon=9, ops=None):
+    '''The slow machine's input is blocked (scripted) while it is busy, it hands its part on INSIDE the blocked interval,
+    the fast sibling becomes idle after that, then the block is lifted: the slow one has been idle longer.'''
+    devs = [src('S', 2), proc('M1', ['S'], 5.5), proc('M2', ['S'], 1.75), sink('K', ['M1', 'M2'])]
+    if ops is None:
+        ops = [('fail', 'M2', 0), ('restore', 'M2')]
+    s = spec(f'FANTOGGLE2[K{K}]', devs, horizon, ops, K)
+    s['script'] = [[3, 2, ['block', 'M1', True]], [7.875, 2, ['block', 'M1', False]]]
+    return s
+
+
 def FANFAIL(K=2, horizon=8, ops=None):
     '''Parallel machines behind one source where one of them fails while idle and is repaired: from then on it has
     been waiting for a part since the repair, not since before the failure.'''
